@@ -742,8 +742,13 @@ def obligations(tier, seed):
     HEAD = ["if", "ia", "is", "lo", "then"]
     for M in range(1, 7 if q else 9):
         add(f"consequent/any{M}", HEAD + [None] * M)
+    PRE = "if ia is hi and ib is lo then oa is big with 0.5"
     for L in range(1, 6 if q else 7):
-        add(f"reload/any{L}", [None] * L, preload="if ia is hi and ib is lo then oa is big with 0.5")
+        add(f"reload/any{L}", [None] * L, preload=PRE)
+    for M in range(1, 6 if q else 8):      # a rule object that holds a loaded rule gets a text of which only one side can be malformed
+        add(f"reload/consequent{M}", HEAD + [None] * M, preload=PRE)
+    for M in range(1, 5 if q else 7):
+        add(f"reload/antecedent{M}", ["if"] + [None] * M + TAIL, preload=PRE)
     for M in range(1, 6 if q else 8):
         obs.append((f"block/any{M}", ob_block(M, tier, f"block/any{M}")))
     shapes = ["K", "K:0", "K:1", "K:2", "=:0", "=:1", "=:2", "=:3"] if q else ["K", "K:0", "K:1", "K:2", "K:3", "=:0", "=:1", "=:2", "=:3", "=:4", "=:5", "=:6"]
